@@ -5,6 +5,15 @@ From Coq Require Import List NArith Bool.
 From Quill Require Import Queue.BQDefs Backend.BEDefs Backend.BEExec Backend.BEInv Backend.BECount TieC08.
 Import ListNotations.
 Local Open Scope N_scope.
+From Quill Require TieBE ExpectedBE.
+
+(* T-src: the BackendWorker methods this property's part of M-BE re-states are, statement by statement, the ones the model
+   was written against and compared with (ExpectedBE.v; the whole loop is tied in Properties_C03.C03_tie_backend_loop) *)
+Theorem C08_tie_backend_methods :
+  QuillGen.SrcFacts.sk_be_cleanup_invalidated_thread_contexts = Quill.ExpectedBE.sk_be_cleanup_invalidated_thread_contexts /\
+  QuillGen.SrcFacts.sk_be_poll = Quill.ExpectedBE.sk_be_poll.
+Proof. exact (conj TieBE.src_be_cleanup_invalidated_thread_contexts TieBE.src_be_poll). Qed.
+Print Assumptions C08_tie_backend_methods.
 
 (* T-src: the source reports pending failure counters right before it removes an exited thread's context *)
 Theorem C08_tie_report_before_removal : QuillGen.SrcFacts.be_report_before_ctx_removal = true.
